@@ -130,22 +130,34 @@ class M(Model):
         if col[node] >= 0:
             return None  # wrapped around after the end of an episode: not defined
         if not self._legal(adj, col, node)[a]:
-            return {"last": True, "reward": -float(self.N), "discount": 0.0}
+            return {"last": True, "reward": -float(self.N)}  # audit: discount is C03's, not part of C09 - not predicted
         col2 = col.copy()
         col2[node] = a
         done = bool((col2 >= 0).all())
+        # audit: the docs only say "the environment iteratively assigns colors to nodes" / "current_node_index: the
+        # current node being colored" - the visiting order (node + 1) is not a documented rule, so the next index is
+        # not predicted as one value; stochastic_ok demands that it names a node that is still uncoloured
         st = {"colors": col2.astype(np.asarray(s.colors).dtype), "adj_matrix": adj}
-        if node + 1 < self.N:
-            st["current_node_index"] = node + 1
         reward = -float(len(set(col2.tolist()))) if done else 0.0
-        return {"state": st, "reward": reward, "last": done, "discount": 0.0 if done else 1.0}
+        return {"state": st, "reward": reward, "last": done}
+
+    def stochastic_ok(self, s, a, s2):
+        """Not stochastic: while the episode continues the next current node must be an uncoloured node."""
+        a = int(a)
+        adj, col, node = self._arrays(s)
+        if not (0 <= node < self.N) or not (0 <= a < self.N) or col[node] >= 0 or not self._legal(adj, col, node)[a]:
+            return []
+        _, col2, node2 = self._arrays(s2)
+        if (col2 < 0).any() and not (0 <= node2 < self.N and col2[node2] < 0):
+            return [("next current_node_index does not name an uncoloured node",
+                     f"current_node_index {node2} colors {col2.tolist()}")]
+        return []
 
     # ---- C10
     def validate_instance(self, s0):
         out = []
         adj = np.asarray(s0.adj_matrix)
-        if adj.dtype != np.bool_:
-            out.append(("adjacency matrix is not boolean", str(adj.dtype)))
+        # audit: the dtype of adj_matrix is spec conformance (C01) - removed
         if adj.shape != (self.N, self.N):
             return out + [("adjacency shape", str(adj.shape))]
         adj = adj.astype(bool)
@@ -155,8 +167,10 @@ class M(Model):
             out.append(("self-loop in the graph", f"node {int(np.flatnonzero(np.diag(adj))[0])}"))
         if (np.asarray(s0.colors) != -1).any():
             out.append(("node coloured at reset", str(np.asarray(s0.colors).tolist())))
-        if int(s0.current_node_index) != 0:
-            out.append(("first node to colour is not node 0", str(int(s0.current_node_index))))
+        # audit: which node is coloured first is not advertised ("an initial current_node_index might be 0") - it only
+        # has to name a node of the graph
+        if not (0 <= int(s0.current_node_index) < self.N):
+            out.append(("current_node_index at reset is not a node of the graph", str(int(s0.current_node_index))))
         return out
 
     # ---- C12
